@@ -587,6 +587,15 @@ class YP(object):
         except StopIteration:
             pass
         finally:
+            # finish an unfinished query (the projection function stopped the evaluation or
+            # raised) while the limit it ran under is still in force: undoing the bindings
+            # of a deep search needs as much stack as the search did
+            close = getattr(query, 'close', None)
+            if close is not None:
+                try:
+                    close()
+                except RuntimeError:
+                    pass
             sys.setrecursionlimit(old_recursionlimit)
         return result
 
